@@ -291,7 +291,82 @@ func verifRunHistory(seq []int, ops []verifOp, src string) (msg string) {
 	return ""
 }
 
+// verifLabelReadback: Labels() of a block must be the label strings, whether the
+// block was loaded from source (compared against the native parser's labels) or
+// generated through the writer API (compared against the strings supplied).
+func verifLabelReadback(maxLen int) (int, []string) {
+	var fails []string
+	alphabet := []string{"a", "$", "%", "{", "}", "\"", "\\", " ", "é", "\n", "1", "~"}
+	var labels []string
+	var gen func(prefix string, n int)
+	gen = func(prefix string, n int) {
+		labels = append(labels, prefix)
+		if n == 0 {
+			return
+		}
+		for _, a := range alphabet {
+			gen(prefix+a, n-1)
+		}
+	}
+	gen("", maxLen)
+	n := 0
+	for _, l := range labels {
+		n++
+		// loaded: quote the label the way the native syntax expects
+		var sb strings.Builder
+		sb.WriteString("x \"")
+		for i := 0; i < len(l); i++ {
+			c := l[i]
+			switch {
+			case c == '"':
+				sb.WriteString("\\\"")
+			case c == '\\':
+				sb.WriteString("\\\\")
+			case c == '\n':
+				sb.WriteString("\\n")
+			case (c == '$' || c == '%') && i+1 < len(l) && l[i+1] == '{':
+				sb.WriteByte(c)
+				sb.WriteByte(c)
+			default:
+				sb.WriteByte(c)
+			}
+		}
+		sb.WriteString("\" \"z\" {\n}\n")
+		src := sb.String()
+		nf, diags := hclsyntax.ParseConfig([]byte(src), "t.hcl", hcl.InitialPos)
+		if !diags.HasErrors() {
+			want := nf.Body.(*hclsyntax.Body).Blocks[0].Labels
+			f, wdiags := ParseConfig([]byte(src), "t.hcl", hcl.InitialPos)
+			if wdiags.HasErrors() {
+				fails = append(fails, fmt.Sprintf("input=%q source %q parses natively but not in hclwrite", "loaded-label:"+l, src))
+				continue
+			}
+			got := f.Body().Blocks()[0].Labels()
+			if strings.Join(got, "\x00") != strings.Join(want, "\x00") {
+				fails = append(fails, fmt.Sprintf("input=%q loaded %q: Labels() is %q, the source has labels %q", "loaded-label:"+l, src, got, want))
+			}
+		}
+		// generated
+		got := NewBlock("x", []string{l, "z"}).Labels()
+		if strings.Join(got, "\x00") != strings.Join([]string{l, "z"}, "\x00") {
+			fails = append(fails, fmt.Sprintf("input=%q NewBlock(x, [%q z]).Labels() is %q", "generated-label:"+l, l, got))
+		}
+	}
+	return n, fails
+}
+
 func TestVerifReplayWriterOps(t *testing.T) {
+	lblLen := 3
+	if os.Getenv("VERIF_TIER") == "thorough" {
+		lblLen = 4
+	}
+	nl, lfails := verifLabelReadback(lblLen)
+	for i, lmsg := range lfails {
+		if i < 200 {
+			t.Errorf("REPLAY-FAIL func=hclwrite.(*blockLabels).Current %s", lmsg)
+		}
+	}
+	fmt.Printf("STANDIN inputs=%d bound=\"label read-back for every label of at most %d pieces from a 12-piece alphabet, loaded and generated\"\n", nl, lblLen)
 	maxLen := 4
 	if os.Getenv("VERIF_TIER") == "thorough" {
 		maxLen = 5
